@@ -176,6 +176,56 @@ type Part struct {
 	Name string
 }
 
+// ---- keys that are not the conventional `ID` column ------------------------------------
+//
+// Article / Topic / Remark: relations that reference a NATURAL key - a renamed, sized, uniquely
+// indexed column that is not the primary key (many-to-many: foreignKey + references on both
+// sides, the join table is generated from the tags of these columns; has many: references).
+// The tags carry several of the settings gorm has to drop when it derives join-table columns
+// (column, index, unique, uniqueIndex), in different orders.
+type Article struct {
+	ID      int64  `gorm:"primaryKey"`
+	Code    string `gorm:"column:acode;size:32;uniqueIndex"`
+	Name    string
+	Topics  []Topic  `gorm:"many2many:article_topics;foreignKey:Code;References:Slug"`
+	Remarks []Remark `gorm:"foreignKey:ArticleCode;references:Code"`
+}
+
+type Topic struct {
+	ID   int64  `gorm:"primaryKey"`
+	Slug string `gorm:"index;column:tslug;size:64;unique"`
+	Name string
+}
+
+type Remark struct {
+	ID          int64 `gorm:"primaryKey"`
+	Name        string
+	ArticleCode *string `gorm:"column:art;size:32;index"`
+}
+
+// Author / Book: primary keys stored in renamed, explicitly auto-incremented columns
+// (many-to-many with a generated join table, pointer elements).
+type Author struct {
+	ID    int64 `gorm:"column:author_no;primaryKey;autoIncrement"`
+	Name  string
+	Books []*Book `gorm:"many2many:author_books"`
+}
+
+type Book struct {
+	ID   int64 `gorm:"primaryKey;autoIncrement;column:book_no"`
+	Name string
+}
+
+// modelGroups: migrated group by group, so that a schema that cannot be set up is reported for
+// the relation kinds that use it (setupErr) instead of taking every kind down.
+var modelGroups = map[string][]interface{}{
+	"":         allModels,
+	"articles": {&Article{}, &Topic{}, &Remark{}},
+	"authors":  {&Author{}, &Book{}},
+}
+
+var setupErr = map[string]error{}
+
 var allModels = []interface{}{&User{}, &Team{}, &Boss{}, &Co{}, &Item{}, &SItem{}, &Pet{}, &Tag{}, &Toy{}, &Badge{}, &Org{}, &Part{}, &Medal{}, &Page{}, &Note{}, &Label{}, &SPet{}, &SToy{}, &SBoss{}, &Club{}}
 
 // ---- relation specifications -------------------------------------------------
@@ -226,6 +276,12 @@ type relSpec struct {
 	linkSQL   string   // -> (target key, owner key "table:key")
 	recSQL    string   // -> (target key, name, soft-deleted 0/1)
 	deadSQL   string   // softJoin: soft-deleted join rows -> (target key, owner key "table:key")
+	group     string   // model group (modelGroups) the kind needs
+	noNewKey  bool     // new records with an application-chosen key are not generated (covered by the plain many-to-many)
+	// the relation references a natural key (okeys / tkeys) that is not the primary key: the rows also
+	// have a database-assigned primary key, which loaded values carry (looked up with raw SQL)
+	oSurr, tSurr *kf
+	surr         map[string]int64 // cache of the look-ups of one case
 }
 
 var idKey = []kf{{"ID", "id", true}}
@@ -344,7 +400,30 @@ var specs = []*relSpec{
 		tables:  []string{"pages", "labels", "page_labels"},
 		linkSQL: "SELECT " + keyExpr("label_id", "label_locale") + ", 'pages:' || " + keyExpr("page_site", "page_slug") + " FROM page_labels",
 		recSQL:  "SELECT " + keyExpr("id", "locale") + ", name, 0 FROM labels"},
+	// ---- keys that are not the conventional ID column ----
+	{name: "many2many_natural_keys", field: "Topics", store: joinRows, assigned: true, group: "articles", ownerT: reflect.TypeOf(Article{}), targetT: reflect.TypeOf(Topic{}), ownerTab: "articles", targetTab: "topics",
+		okeys: []kf{{"Code", "acode", false}}, tkeys: []kf{{"Slug", "tslug", false}}, oSurr: &kf{"ID", "id", true}, tSurr: &kf{"ID", "id", true},
+		jt: "article_topics", // (join columns: resolveJoin)
+		pools:   []poolSet{{"natural", codePool, slugPool}},
+		tables:  []string{"articles", "topics", "article_topics"},
+		recSQL:  "SELECT tslug, name, 0 FROM topics"},
+	{name: "has_many_natural_key", field: "Remarks", store: fkTarget, group: "articles", ownerT: reflect.TypeOf(Article{}), targetT: reflect.TypeOf(Remark{}), ownerTab: "articles", targetTab: "remarks",
+		okeys: []kf{{"Code", "acode", false}}, oSurr: &kf{"ID", "id", true}, fks: []kf{{"ArticleCode", "art", false}},
+		pools:   []poolSet{{"natural", codePool, nil}},
+		tables:  []string{"articles", "remarks"},
+		linkSQL: "SELECT CAST(id AS TEXT), 'articles:' || art FROM remarks WHERE art IS NOT NULL",
+		recSQL:  "SELECT CAST(id AS TEXT), name, 0 FROM remarks"},
+	{name: "many2many_renamed_pk", field: "Books", store: joinRows, group: "authors", noNewKey: true, ownerT: reflect.TypeOf(Author{}), targetT: reflect.TypeOf(Book{}), ownerTab: "authors", targetTab: "books",
+		okeys: []kf{{"ID", "author_no", true}}, tkeys: []kf{{"ID", "book_no", true}},
+		jt: "author_books", // (join columns: resolveJoin)
+		tables:  []string{"authors", "books", "author_books"},
+		recSQL:  "SELECT CAST(book_no AS TEXT), name, 0 FROM books"},
 }
+
+var (
+	codePool = []string{"a-1", "b-2", "c-3", "d-4", "e-5"}
+	slugPool = []string{"go", "sql", "orm", "db", "web", "api", "cli", "net"}
+)
 
 func init() {
 	for _, s := range specs {
@@ -355,6 +434,39 @@ func init() {
 			s.tkeys = idKey
 		}
 	}
+}
+
+// resolveJoin reads the names of the join-table columns of a many-to-many kind from the relation as
+// gorm parsed it (how gorm names them is not part of the property; which rows they hold is).
+func (s *relSpec) resolveJoin(db *gorm.DB) error {
+	stmt := &gorm.Statement{DB: db}
+	if err := stmt.Parse(reflect.New(s.ownerT).Interface()); err != nil {
+		return err
+	}
+	rel := stmt.Schema.Relationships.Relations[s.field]
+	if rel == nil || rel.JoinTable == nil {
+		return fmt.Errorf("%s.%s is not parsed as a many-to-many relation", s.ownerT.Name(), s.field)
+	}
+	s.jt = rel.JoinTable.Table
+	s.jtO, s.jtT = make([]string, len(s.okeys)), make([]string, len(s.tkeys))
+	for _, ref := range rel.References {
+		kfs, dst := s.tkeys, s.jtT
+		if ref.OwnPrimaryKey {
+			kfs, dst = s.okeys, s.jtO
+		}
+		for i, f := range kfs {
+			if f.field == ref.PrimaryKey.Name {
+				dst[i] = ref.ForeignKey.DBName
+			}
+		}
+	}
+	for _, c := range append(append([]string(nil), s.jtO...), s.jtT...) {
+		if c == "" {
+			return fmt.Errorf("%s.%s: the parsed relation does not reference the key fields %v / %v", s.ownerT.Name(), s.field, s.okeys, s.tkeys)
+		}
+	}
+	s.linkSQL = "SELECT " + keyExpr(s.jtT...) + ", '" + s.ownerTab + ":' || " + keyExpr(s.jtO...) + " FROM " + s.jt
+	return nil
 }
 
 // deletesRecords: an Unscoped association call deletes the targets whose link it removes
@@ -513,7 +625,10 @@ func (s *relSpec) insTarget(tk, name string) {
 	must(err)
 }
 
-func (s *relSpec) insLink(ok, tk string) {
+func (s *relSpec) insLink(ok, tk string) { must(s.tryLink(ok, tk)) }
+
+// tryLink stores one link with raw SQL.
+func (s *relSpec) tryLink(ok, tk string) error {
 	table, key := splitOwner(ok)
 	oa, ta := keyArgs(s.okeys, key), keyArgs(s.tkeys, tk)
 	var err error
@@ -527,7 +642,7 @@ func (s *relSpec) insLink(ok, tk string) {
 	default:
 		_, err = H.SQL.Exec("UPDATE "+s.targetTab+" SET "+setAll(kcols(s.fks))+" WHERE "+eqAll(kcols(s.tkeys)), append(oa, ta...)...)
 	}
-	must(err)
+	return err
 }
 
 // insLeftover stores what an earlier removal leaves behind without being a link: for a
@@ -652,11 +767,36 @@ func (s *relSpec) ownerFK(ok string) string {
 
 // ---- reflection helpers ------------------------------------------------------------
 
+// surrogate looks up the database-assigned primary key of the row that holds a natural key
+// (0: no such row). Keys are never reassigned within a case, so hits are cached per case.
+func (s *relSpec) surrogate(table string, surr *kf, kfs []kf, key string) int64 {
+	ck := table + ":" + key
+	if id, ok := s.surr[ck]; ok {
+		return id
+	}
+	var id int64
+	err := H.SQL.QueryRow("SELECT "+surr.col+" FROM "+table+" WHERE "+eqAll(kcols(kfs)), keyArgs(kfs, key)...).Scan(&id)
+	if err != nil {
+		return 0
+	}
+	if s.surr == nil {
+		s.surr = map[string]int64{}
+	}
+	s.surr[ck] = id
+	return id
+}
+
 // newTarget builds an addressable target value.
 func (s *relSpec) newTarget(t targ) reflect.Value {
 	v := reflect.New(s.targetT).Elem()
 	if t.key != "" {
 		setKey(v, s.tkeys, t.key)
+		if s.tSurr != nil {
+			// a record that exists is passed as loaded: natural key and primary key
+			if id := s.surrogate(s.targetTab, s.tSurr, s.tkeys, t.key); id != 0 {
+				v.FieldByName(s.tSurr.field).SetInt(id)
+			}
+		}
 	}
 	if !t.keyOnly {
 		v.FieldByName("Name").SetString(t.name)
@@ -667,6 +807,11 @@ func (s *relSpec) newTarget(t targ) reflect.Value {
 func (s *relSpec) targetLit(t targ, withType bool) string {
 	var parts []string
 	if t.key != "" {
+		if s.tSurr != nil {
+			if id := s.surrogate(s.targetTab, s.tSurr, s.tkeys, t.key); id != 0 {
+				parts = append(parts, fmt.Sprintf("%s:%d", s.tSurr.field, id))
+			}
+		}
 		parts = append(parts, keyLit(s.targetT, s.tkeys, t.key))
 	}
 	if !t.keyOnly {
@@ -718,8 +863,11 @@ func (s *relSpec) memKeys(owner reflect.Value) []string {
 // setOwner fills the scalar columns of an owner value (as a loaded record without preloads);
 // fk (belongs to): key of the target its key column(s) name, "" = none.
 func (s *relSpec) setOwner(v reflect.Value, ok, name string, fk string) {
-	_, key := splitOwner(ok)
+	table, key := splitOwner(ok)
 	setKey(v, s.okeys, key)
+	if s.oSurr != nil {
+		v.FieldByName(s.oSurr.field).SetInt(s.surrogate(table, s.oSurr, s.okeys, key))
+	}
 	v.FieldByName("Name").SetString(name)
 	if s.store == fkOwner && fk != "" {
 		setKey(v, s.fks, fk)
@@ -727,7 +875,10 @@ func (s *relSpec) setOwner(v reflect.Value, ok, name string, fk string) {
 }
 
 func (s *relSpec) ownerLit(ok string) string {
-	_, key := splitOwner(ok)
+	table, key := splitOwner(ok)
+	if s.oSurr != nil {
+		return fmt.Sprintf("%s{%s:%d, %s}", s.ownerT.Name(), s.oSurr.field, s.surrogate(table, s.oSurr, s.okeys, key), keyLit(s.ownerT, s.okeys, key))
+	}
 	return s.ownerT.Name() + "{" + keyLit(s.ownerT, s.okeys, key) + "}"
 }
 
